@@ -404,6 +404,14 @@ func runWorkers(c *Check, cfg *Config, bin, work string, rs runSpec) ([]Result, 
 						Violations: []Violation{{Group: "race", Key: fmt.Sprintf("shard-%d", i), Class: "data-race", Msgs: []string{tail}}}}
 					return
 				}
+				if cls, msg := crashInCodeUnderTest(stderr.String()); cls != "" {
+					// the worker process was killed by an unrecoverable fault raised inside gonum itself
+					// (e.g. a panic in a goroutine started by the library): that is an observable failure
+					// of the code under test, not of the engine.
+					results[i] = Result{Config: cfg.Name, NViolations: 1, Complete: false, StoppedAt: "worker crashed",
+						Violations: []Violation{{Group: "crash", Key: fmt.Sprintf("shard-%d-of-%d", i, n), Class: cls, Msgs: []string{msg}}}}
+					return
+				}
 				errs[i] = fmt.Errorf("shard %d of %s died without a result (%v):\n%s", i, cfg.Name, werr, tail)
 				return
 			}
@@ -424,6 +432,44 @@ func runWorkers(c *Check, cfg *Config, bin, work string, rs runSpec) ([]Result, 
 		}
 	}
 	return results, nil
+}
+
+// crashInCodeUnderTest inspects the stderr of a worker that died without writing a result. If the
+// process was brought down by a Go panic or fatal error whose innermost non-runtime frame lies in
+// gonum itself (under /repo but not in the injected internal/verif packages), it returns the class
+// "worker-crash" and a summary; otherwise "" (an engine problem).
+func crashInCodeUnderTest(stderr string) (class, msg string) {
+	idx := strings.Index(stderr, "panic: ")
+	if j := strings.Index(stderr, "fatal error: "); j >= 0 && (idx < 0 || j < idx) {
+		idx = j
+	}
+	if idx < 0 {
+		return "", ""
+	}
+	tr := stderr[idx:]
+	if strings.Contains(tr, "out of memory") || strings.Contains(tr, "cannot allocate memory") {
+		return "", ""
+	}
+	lines := strings.Split(tr, "\n")
+	first := ""
+	for _, l := range lines {
+		l = strings.TrimSpace(l)
+		if !strings.HasPrefix(l, "/") {
+			continue
+		}
+		if strings.Contains(l, "/go-1.") || strings.Contains(l, "/src/runtime/") || strings.Contains(l, "/opt/veriftools/") {
+			continue
+		}
+		first = l
+		break
+	}
+	if first == "" || !strings.HasPrefix(first, repoDir+"/") || strings.HasPrefix(first, virtBase+"/") {
+		return "", ""
+	}
+	if len(tr) > 1800 {
+		tr = tr[:1800]
+	}
+	return "worker-crash", "the worker process was killed by an unrecoverable fault inside the code under test at " + first + ":\n" + tr
 }
 
 func inTier(cfg *Config, tier string) bool {
